@@ -2,6 +2,11 @@
 with a concrete integer/float evaluator.  Used to compare bit layouts and index formulas across the two languages
 (C34, parts of C33).  Only *extracted* expression trees are evaluated; repository code is never imported or run.
 
+Also here: PathTerms (the statements of a function rewritten into IR terms per path, helpers substituted at their calls), SignDomain
+(agreeing-low-bits / sign abstract domain over those terms, for 32-bit words read as signed integers) and the bit-field domain
+(BV: integers as vectors of constant / symbolic bits with a two's-complement sign fill; Poly: arithmetic terms over symbols in a
+polynomial normal form; TermEval: abstract evaluation of IR terms of both languages over these, uninterpreted function symbols included).
+
 IR (same tuples as scalalite_enc): ('int', n) ('float', x) ('bool', b) ('name', dotted) ('bin', op, l, r) ('un', op, e)
 ('call', fn, [(kw, e)...], None) ('sel', e, attr) ('index', e, i) ('if', c, a, b) ('list', [e...])
 """
@@ -325,499 +330,11 @@ def placed(e: tuple) -> Optional[Tuple[tuple, int]]:
 
 
 # --------------------------------------------------------------------------------------
-# a concrete interpreter for small extracted Python functions (never Python's own eval/exec)
-# --------------------------------------------------------------------------------------
-#
-# Used to evaluate a whole converter body (statements, early returns, nested helper functions, module-level helpers and tables)
-# on chosen inputs, so that rules compare *behaviour on a finite domain* instead of one particular statement shape.
-
-
-class PyRaise(Exception):
-    """The interpreted program raises (assert, raise, IndexError, struct.error, ...)."""
-
-
-class _PyReturn(Exception):
-    def __init__(self, value: Any):
-        self.value = value
-
-
-class _PyBreak(Exception):
-    pass
-
-
-class _PyContinue(Exception):
-    pass
-
-
-class PyObj:
-    """Attribute bag standing for an object of the modelled program (e.g. a Call value with .alleles/.ploidy/.phased)."""
-
-    def __init__(self, kind: str, **attrs: Any):
-        self.kind = kind
-        self.attrs = attrs
-        self.methods: Dict[str, Callable[..., Any]] = {}
-        self.cls: Optional['PyClass'] = None
-
-    def __repr__(self) -> str:
-        return f'{self.kind}({", ".join(f"{k}={v!r}" for k, v in self.attrs.items())})'
-
-
-class PyClass:
-    """A class of the interpreted module: calling it builds a PyObj and runs the class's own __init__ through the interpreter."""
-
-    def __init__(self, interp: 'PyInterp', cdef: ast.ClassDef):
-        self.interp, self.cdef = interp, cdef
-        self.name = cdef.name
-
-    def lookup(self, name: str, seen: Tuple[str, ...] = ()) -> Optional[ast.AST]:
-        found = None
-        for st in self.cdef.body:
-            if isinstance(st, (ast.FunctionDef, ast.AsyncFunctionDef)) and st.name == name:
-                found = st
-            elif isinstance(st, ast.Assign) and any(isinstance(t, ast.Name) and t.id == name for t in st.targets):
-                found = st
-            elif isinstance(st, ast.AnnAssign) and isinstance(st.target, ast.Name) and st.target.id == name and st.value is not None:
-                found = st
-        if found is not None:
-            return found
-        for b in self.cdef.bases:
-            d = pf.dotted(b)
-            if d in self.interp._top_classes and d not in seen and d != self.name:
-                r = PyClass(self.interp, self.interp._top_classes[d]).lookup(name, seen + (self.name,))
-                if r is not None:
-                    return r
-        return None
-
-    def member(self, name: str, obj: Optional['PyObj'], node: ast.AST) -> Any:
-        """value of attribute `name` looked up on the class (obj = the instance it is accessed through, or None)"""
-        d = self.lookup(name)
-        if d is None:
-            self.interp.fail(node, f'class {self.name} has no member `{name}` in {self.interp.m.rel}')
-        if isinstance(d, (ast.Assign, ast.AnnAssign)):
-            return self.interp.expr(d.value, _Env(None))
-        decos = pf.decorator_names(d)
-        clo = PyClosure(self.interp, d, None)
-        if 'staticmethod' in decos:
-            return clo
-        if 'classmethod' in decos:
-            return lambda *a, **k: clo(self, *a, **k)
-        if obj is None:
-            return clo
-        if 'property' in decos or 'functools.cached_property' in decos or 'cached_property' in decos:
-            return clo(obj)
-        return lambda *a, **k: clo(obj, *a, **k)
-
-    def __call__(self, *args: Any, **kwargs: Any) -> 'PyObj':
-        obj = PyObj(self.name)
-        obj.cls = self
-        if self.lookup('__init__') is not None:
-            self.member('__init__', obj, self.cdef)(*args, **kwargs)
-        return obj
-
-
-class PyClosure:
-    def __init__(self, interp: 'PyInterp', fn: ast.FunctionDef, env: Optional['_Env']):
-        self.interp, self.fn, self.env = interp, fn, env
-
-    def __call__(self, *args: Any, **kwargs: Any) -> Any:
-        return self.interp.call_function(self.fn, list(args), kwargs, self.env)
-
-
-class _Env:
-    def __init__(self, parent: Optional['_Env']):
-        self.vars: Dict[str, Any] = {}
-        self.parent = parent
-
-    def lookup(self, name: str) -> Tuple[bool, Any]:
-        e: Optional[_Env] = self
-        while e is not None:
-            if name in e.vars:
-                return True, e.vars[name]
-            e = e.parent
-        return False, None
-
-
-_MATH = {'sqrt': math.sqrt, 'floor': math.floor, 'ceil': math.ceil, 'isqrt': math.isqrt, 'log2': math.log2}
-
-
-class PyInterp:
-    def __init__(self, m: pf.Module, externals: Optional[Dict[str, Any]] = None, max_steps: int = 400000):
-        self.m = m
-        self.externals = externals or {}   # dotted name -> value / callable (e.g. 'genetics.Call')
-        self.max_steps = max_steps
-        self.steps = 0
-        self._globals: Dict[str, Any] = {}
-        self._top_funcs = {f.name: f for f in m.tree.body if isinstance(f, ast.FunctionDef)}
-        self._top_classes = {c.name: c for c in m.tree.body if isinstance(c, ast.ClassDef)}
-
-    def fail(self, node: Optional[ast.AST], msg: str):
-        raise AnalysisError(f'{self.m.rel} (line {getattr(node, "lineno", 0)}): interpreter: {msg}')
-
-    # ---- names -------------------------------------------------------------------
-    def global_value(self, name: str, node: ast.AST) -> Any:
-        if name in self._globals:
-            return self._globals[name]
-        if name in self._top_funcs:
-            v: Any = PyClosure(self, self._top_funcs[name], None)
-        elif name in self._top_classes:
-            v = PyClass(self, self._top_classes[name])
-        elif name in self.m.imports():
-            v = PyObj('import:' + name)   # an imported name: opaque (only usable where the interpreter special-cases it, e.g. isinstance)
-        else:
-            try:
-                e = self.m.global_assign(name)
-            except AnalysisError:
-                self.fail(node, f'unbound name `{name}`')
-            v = self.expr(e, _Env(None))
-        self._globals[name] = v
-        return v
-
-    def call_function(self, fn: ast.FunctionDef, args: List[Any], kwargs: Dict[str, Any], closure_env: Optional[_Env]) -> Any:
-        a = fn.args
-        if a.vararg or a.kwarg or a.posonlyargs:
-            self.fail(fn, f'{fn.name}: star parameters')
-        env = _Env(closure_env)
-        params = [x.arg for x in a.args]
-        if len(args) > len(params):
-            raise PyRaise(f'TypeError: {fn.name}() takes {len(params)} positional arguments but {len(args)} were given')
-        for p, v in zip(params, args):
-            env.vars[p] = v
-        defaults = dict(zip(params[len(params) - len(a.defaults):], a.defaults))
-        for p, d in zip([x.arg for x in a.kwonlyargs], a.kw_defaults):
-            if d is not None:
-                defaults[p] = d
-        for k, v in kwargs.items():
-            if k in env.vars or k not in params + [x.arg for x in a.kwonlyargs]:
-                raise PyRaise(f'TypeError: {fn.name}() got an unexpected or duplicate keyword argument {k!r}')
-            env.vars[k] = v
-        for p in params + [x.arg for x in a.kwonlyargs]:
-            if p not in env.vars:
-                if p not in defaults:
-                    raise PyRaise(f'TypeError: {fn.name}() missing argument {p!r}')
-                env.vars[p] = self.expr(defaults[p], _Env(closure_env))
-        try:
-            self.block(fn.body, env)
-        except _PyReturn as r:
-            return r.value
-        return None
-
-    # ---- statements -----------------------------------------------------------------
-    def block(self, stmts: List[ast.stmt], env: _Env) -> None:
-        for st in stmts:
-            self.stmt(st, env)
-
-    def tick(self, node: ast.AST):
-        self.steps += 1
-        if self.steps > self.max_steps:
-            self.fail(node, 'evaluation does not terminate')
-
-    def assign(self, t: ast.AST, v: Any, env: _Env) -> None:
-        if isinstance(t, ast.Name):
-            env.vars[t.id] = v
-        elif isinstance(t, (ast.Tuple, ast.List)):
-            try:
-                vals = list(v)
-            except TypeError:
-                raise PyRaise('TypeError: cannot unpack')
-            if len(vals) != len(t.elts):
-                raise PyRaise(f'ValueError: unpacking {len(vals)} values into {len(t.elts)} targets')
-            for x, y in zip(t.elts, vals):
-                self.assign(x, y, env)
-        elif isinstance(t, ast.Subscript):
-            base = self.expr(t.value, env)
-            idx = self.expr(t.slice, env)
-            if isinstance(base, (list, dict)):
-                try:
-                    base[idx] = v
-                except (IndexError, TypeError, KeyError) as ex:
-                    raise PyRaise(f'{type(ex).__name__}: {ex}')
-            else:
-                self.fail(t, 'store into an unsupported container')
-        elif isinstance(t, ast.Attribute):
-            base = self.expr(t.value, env)
-            if isinstance(base, PyObj):
-                base.attrs[t.attr] = v
-            else:
-                self.fail(t, f'attribute store on `{pf.nsrc(t.value)[:40]}`')
-        else:
-            self.fail(t, f'unsupported assignment target `{pf.nsrc(t)[:40]}`')
-
-    def stmt(self, st: ast.stmt, env: _Env) -> None:
-        self.tick(st)
-        if isinstance(st, ast.FunctionDef):
-            env.vars[st.name] = PyClosure(self, st, env)
-        elif isinstance(st, (ast.Pass, ast.Import, ast.ImportFrom)):
-            return
-        elif isinstance(st, ast.Expr):
-            if isinstance(st.value, ast.Constant):
-                return
-            self.expr(st.value, env)
-        elif isinstance(st, ast.Assign):
-            v = self.expr(st.value, env)
-            for t in st.targets:
-                self.assign(t, v, env)
-        elif isinstance(st, ast.AnnAssign):
-            if st.value is not None:
-                self.assign(st.target, self.expr(st.value, env), env)
-        elif isinstance(st, ast.AugAssign):
-            cur = self.expr(st.target, env)
-            v = self.binop(st, type(st.op), cur, self.expr(st.value, env))
-            self.assign(st.target, v, env)
-        elif isinstance(st, ast.If):
-            self.block(st.body if self.expr(st.test, env) else st.orelse, env)
-        elif isinstance(st, ast.While):
-            n = 0
-            while self.expr(st.test, env):
-                n += 1
-                if n > 100000:
-                    self.fail(st, 'loop does not terminate')
-                try:
-                    self.block(st.body, env)
-                except _PyBreak:
-                    break
-                except _PyContinue:
-                    continue
-        elif isinstance(st, ast.For):
-            for item in self.iterate(self.expr(st.iter, env), st.iter):
-                self.assign(st.target, item, env)
-                try:
-                    self.block(st.body, env)
-                except _PyBreak:
-                    break
-                except _PyContinue:
-                    continue
-        elif isinstance(st, ast.Return):
-            raise _PyReturn(self.expr(st.value, env) if st.value is not None else None)
-        elif isinstance(st, ast.Raise):
-            raise PyRaise('raise ' + (pf.nsrc(st.exc)[:80] if st.exc is not None else ''))
-        elif isinstance(st, ast.Assert):
-            if not self.expr(st.test, env):
-                raise PyRaise('AssertionError: ' + pf.nsrc(st.test)[:80])
-        elif isinstance(st, ast.Break):
-            raise _PyBreak()
-        elif isinstance(st, ast.Continue):
-            raise _PyContinue()
-        else:
-            self.fail(st, f'unsupported statement {type(st).__name__}')
-
-    def iterate(self, v: Any, node: ast.AST) -> List[Any]:
-        if isinstance(v, (list, tuple, range, str)):
-            return list(v)
-        self.fail(node, f'cannot iterate over `{pf.nsrc(node)[:40]}`')
-        return []
-
-    # ---- expressions ---------------------------------------------------------------------
-    def binop(self, node: ast.AST, op: type, a: Any, b: Any) -> Any:
-        num = (int, float)
-        try:
-            if op in (ast.LShift, ast.RShift, ast.BitOr, ast.BitAnd, ast.BitXor):
-                if not (isinstance(a, int) and isinstance(b, int)):
-                    raise PyRaise(f'TypeError: bit operator on {type(a).__name__}, {type(b).__name__} in `{pf.nsrc(node)[:60]}`')
-                if op in (ast.LShift, ast.RShift) and (b < 0 or b > 4096):
-                    raise PyRaise('ValueError: shift count')
-                return {ast.LShift: lambda: a << b, ast.RShift: lambda: a >> b, ast.BitOr: lambda: a | b, ast.BitAnd: lambda: a & b, ast.BitXor: lambda: a ^ b}[op]()
-            if op is ast.Add and isinstance(a, (list, tuple, str)) and isinstance(b, type(a)):
-                return a + b
-            if op is ast.Mult and isinstance(a, (list, tuple)) and isinstance(b, int):
-                return a * b
-            if not (isinstance(a, num) and isinstance(b, num)):
-                raise PyRaise(f'TypeError: arithmetic on {type(a).__name__}, {type(b).__name__} in `{pf.nsrc(node)[:60]}`')
-            if op is ast.Pow:
-                if isinstance(b, int) and abs(b) > 4096:
-                    self.fail(node, 'power out of the analysed range')
-                return a ** b
-            return {ast.Add: lambda: a + b, ast.Sub: lambda: a - b, ast.Mult: lambda: a * b, ast.FloorDiv: lambda: a // b, ast.Div: lambda: a / b, ast.Mod: lambda: a % b}[op]()
-        except KeyError:
-            self.fail(node, 'unsupported operator')
-        except (ZeroDivisionError, OverflowError, ValueError) as ex:
-            raise PyRaise(f'{type(ex).__name__}: {ex}')
-
-    def expr(self, e: ast.AST, env: _Env) -> Any:
-        self.tick(e)
-        if isinstance(e, ast.Constant):
-            return e.value
-        if isinstance(e, ast.Name):
-            ok, v = env.lookup(e.id)
-            if ok:
-                return v
-            if e.id in self.externals:
-                return self.externals[e.id]
-            if e.id in _BUILTINS:
-                return _BUILTINS[e.id]
-            return self.global_value(e.id, e)
-        if isinstance(e, (ast.List, ast.Tuple)):
-            vals = [self.expr(x, env) for x in e.elts]
-            return vals if isinstance(e, ast.List) else tuple(vals)
-        if isinstance(e, ast.Attribute):
-            d = pf.dotted(e)
-            if d is not None and d in self.externals:
-                return self.externals[d]
-            if d is not None and d.startswith('math.') and d[5:] in _MATH:
-                return _MATH[d[5:]]
-            base = self.expr(e.value, env)
-            if isinstance(base, PyObj):
-                if e.attr in base.attrs:
-                    return base.attrs[e.attr]
-                if e.attr in base.methods:
-                    return base.methods[e.attr]
-                if base.kind == 'super':
-                    return lambda *a, **k: None
-                if base.cls is not None:
-                    return base.cls.member(e.attr, base, e)
-                self.fail(e, f'object {base.kind} has no modelled attribute `{e.attr}`')
-            if isinstance(base, PyClass):
-                return base.member(e.attr, None, e)
-            self.fail(e, f'unsupported attribute `{pf.nsrc(e)[:60]}`')
-        if isinstance(e, ast.Subscript):
-            base = self.expr(e.value, env)
-            if isinstance(e.slice, ast.Slice):
-                lo = self.expr(e.slice.lower, env) if e.slice.lower is not None else None
-                hi = self.expr(e.slice.upper, env) if e.slice.upper is not None else None
-                stp = self.expr(e.slice.step, env) if e.slice.step is not None else None
-                if isinstance(base, (list, tuple, str)):
-                    return base[lo:hi:stp]
-                self.fail(e, 'slice of an unsupported value')
-            idx = self.expr(e.slice, env)
-            if isinstance(base, PyObj) and base.cls is not None and base.cls.lookup('__getitem__') is not None:
-                return base.cls.member('__getitem__', base, e)(idx)
-            if isinstance(base, (list, tuple, str, dict)):
-                try:
-                    return base[idx]
-                except (IndexError, KeyError, TypeError) as ex:
-                    raise PyRaise(f'{type(ex).__name__}: `{pf.nsrc(e)[:50]}` with index {idx!r}')
-            self.fail(e, f'unsupported subscript `{pf.nsrc(e)[:60]}`')
-        if isinstance(e, ast.UnaryOp):
-            v = self.expr(e.operand, env)
-            if isinstance(e.op, ast.Not):
-                return not v
-            if isinstance(v, (int, float)):
-                if isinstance(e.op, ast.USub):
-                    return -v
-                if isinstance(e.op, ast.UAdd):
-                    return +v
-                if isinstance(e.op, ast.Invert) and isinstance(v, int):
-                    return ~v
-            raise PyRaise('TypeError: unary operator')
-        if isinstance(e, ast.BinOp):
-            return self.binop(e, type(e.op), self.expr(e.left, env), self.expr(e.right, env))
-        if isinstance(e, ast.BoolOp):
-            res: Any = None
-            for v in e.values:
-                res = self.expr(v, env)
-                if isinstance(e.op, ast.And) and not res:
-                    return res
-                if isinstance(e.op, ast.Or) and res:
-                    return res
-            return res
-        if isinstance(e, ast.Compare):
-            left = self.expr(e.left, env)
-            for op, c in zip(e.ops, e.comparators):
-                right = self.expr(c, env)
-                try:
-                    ok = {ast.Eq: lambda: left == right, ast.NotEq: lambda: left != right, ast.Lt: lambda: left < right, ast.LtE: lambda: left <= right,
-                          ast.Gt: lambda: left > right, ast.GtE: lambda: left >= right, ast.Is: lambda: left is right, ast.IsNot: lambda: left is not right,
-                          ast.In: lambda: left in right, ast.NotIn: lambda: left not in right}[type(op)]()
-                except TypeError as ex:
-                    raise PyRaise(f'TypeError: {ex}')
-                if not ok:
-                    return False
-                left = right
-            return True
-        if isinstance(e, ast.IfExp):
-            return self.expr(e.body, env) if self.expr(e.test, env) else self.expr(e.orelse, env)
-        if isinstance(e, (ast.ListComp, ast.GeneratorExp)):
-            out: List[Any] = []
-            inner = _Env(env)
-
-            def gen(i: int):
-                if i == len(e.generators):
-                    out.append(self.expr(e.elt, inner))
-                    return
-                g = e.generators[i]
-                for item in self.iterate(self.expr(g.iter, inner), g.iter):
-                    self.assign(g.target, item, inner)
-                    if all(self.expr(c, inner) for c in g.ifs):
-                        gen(i + 1)
-            gen(0)
-            return out
-        if isinstance(e, ast.Call) and isinstance(e.func, ast.Name) and e.func.id == 'isinstance' and len(e.args) == 2 and not env.lookup('isinstance')[0]:
-            v = self.expr(e.args[0], env)
-            names = [pf.dotted(x) for x in (e.args[1].elts if isinstance(e.args[1], ast.Tuple) else [e.args[1]])]
-            table = {'int': lambda x: isinstance(x, int) and not isinstance(x, bool), 'bool': lambda x: isinstance(x, bool), 'float': lambda x: isinstance(x, float),
-                     'str': lambda x: isinstance(x, str), 'list': lambda x: isinstance(x, list), 'tuple': lambda x: isinstance(x, tuple),
-                     'Sequence': lambda x: isinstance(x, (list, tuple, str)), 'abc.Sequence': lambda x: isinstance(x, (list, tuple, str)),
-                     'collections.abc.Sequence': lambda x: isinstance(x, (list, tuple, str))}
-            res = False
-            for n in names:
-                if n in table:
-                    res = res or table[n](v)
-                elif n is not None and isinstance(v, PyObj) and v.cls is not None:
-                    res = res or v.cls.name == n.split('.')[-1]
-                else:
-                    res = True  # a type outside the table: values are assumed well-typed
-            return res
-        if isinstance(e, ast.Call):
-            f = self.expr(e.func, env)
-            args = []
-            for a in e.args:
-                if isinstance(a, ast.Starred):
-                    args += self.iterate(self.expr(a.value, env), a)
-                else:
-                    args.append(self.expr(a, env))
-            kwargs = {}
-            for k in e.keywords:
-                if k.arg is None:
-                    self.fail(e, '** arguments')
-                kwargs[k.arg] = self.expr(k.value, env)
-            if not callable(f):
-                raise PyRaise(f'TypeError: `{pf.nsrc(e.func)[:40]}` is not callable')
-            try:
-                return f(*args, **kwargs)
-            except (PyRaise, AnalysisError, _PyReturn, _PyBreak, _PyContinue):
-                raise
-            except (TypeError, ValueError, OverflowError, ZeroDivisionError, IndexError) as ex:
-                raise PyRaise(f'{type(ex).__name__}: {ex} in `{pf.nsrc(e)[:60]}`')
-        if isinstance(e, ast.JoinedStr):
-            return '<f-string>'
-        self.fail(e, f'unsupported expression `{pf.nsrc(e)[:60]}`')
-
-
-def _b_int(x: Any = 0) -> int:
-    if isinstance(x, (int, float, bool)):
-        return int(x)
-    if isinstance(x, str):
-        return int(x)
-    raise TypeError('int() of an unsupported value')
-
-
-def _b_float(x: Any = 0.0) -> float:
-    if isinstance(x, (int, float, bool, str)):
-        return float(x)
-    raise TypeError('float() of an unsupported value')
-
-
-def _b_len(x: Any) -> int:
-    if isinstance(x, PyObj):
-        if x.cls is not None and x.cls.lookup('__len__') is not None:
-            return x.cls.member('__len__', x, x.cls.cdef)()
-        raise TypeError(f'object of type {x.kind} has no len()')
-    return len(x)
-
-
-_BUILTINS: Dict[str, Any] = {
-    'int': _b_int, 'float': _b_float, 'bool': lambda x=False: bool(x), 'len': _b_len, 'super': lambda *a: PyObj('super'), 'hash': lambda x: 0, 'range': lambda *a: range(*a), 'min': lambda *a: min(*a), 'max': lambda *a: max(*a),
-    'abs': lambda x: abs(x), 'list': lambda x=(): list(x), 'tuple': lambda x=(): tuple(x), 'sorted': lambda x: sorted(x), 'divmod': lambda a, b: divmod(a, b),
-    'enumerate': lambda x, start=0: list(enumerate(x, start)), 'zip': lambda *a: list(zip(*a)), 'reversed': lambda x: list(reversed(x)), 'sum': lambda x: sum(x),
-    'True': True, 'False': False, 'None': None, 'isinstance': lambda *a: True, 'str': lambda x='': str(x) if isinstance(x, (int, str, bool)) else '<str>',
-}
-
-
-# --------------------------------------------------------------------------------------
-# symbolic path execution of a small function into IR trees, and a sign / agreeing-low-bits domain over them
+# path terms: the statements of a small function turned into IR trees per path, and a sign / agreeing-low-bits domain over them
 # --------------------------------------------------------------------------------------
 
 
-class SymPath:
+class TermPath:
     def __init__(self):
         self.conds: List[Tuple[tuple, bool, int]] = []   # (condition tree, branch taken, line)
         self.asserts: List[tuple] = []
@@ -825,8 +342,8 @@ class SymPath:
         self.end: tuple = ('fall',)                      # ('return', tree | None, line) | ('raise', text, line) | ('fall',)
         self.env: Dict[str, Any] = {}
 
-    def clone(self) -> 'SymPath':
-        p = SymPath()
+    def clone(self) -> 'TermPath':
+        p = TermPath()
         p.conds, p.asserts, p.writes, p.end, p.env = list(self.conds), list(self.asserts), list(self.writes), self.end, dict(self.env)
         return p
 
@@ -839,9 +356,10 @@ def conj(conds: List[Tuple[tuple, bool, int]]) -> tuple:
     return out if out is not None else ('bool', True)
 
 
-class SymExec:
-    """Executes the statements of a function over IR trees: locals are substituted, `if` forks, nested helper functions are inlined at
-    their calls (their own branches become ('if', c, a, b) trees), reads from the byte stream become the symbol named by `word`."""
+class PathTerms:
+    """Rewrites the statements of a function into IR terms, path by path (nothing is run): locals are substituted by their defining terms,
+    each `if` yields one path per branch with the branch condition recorded as a term, nested helper functions are substituted at their
+    calls (their own branches become ('if', c, a, b) terms), reads from the byte stream become the symbol named by `word`."""
 
     def __init__(self, where: str, stream: Optional[str], word: str = '$w', max_paths: int = 256, max_depth: int = 8,
                  resolver: Optional[Callable[[str], Optional[Tuple[ast.FunctionDef, int]]]] = None):
@@ -872,11 +390,11 @@ class SymExec:
         k = t[0]
         if k == 'name':
             n = t[1]
-            if n in env and not isinstance(env[n], _SymClosure):
+            if n in env and not isinstance(env[n], _Closure):
                 return env[n]
             if '.' in n:
                 base, rest = n.split('.', 1)
-                if base in env and not isinstance(env[base], _SymClosure):
+                if base in env and not isinstance(env[base], _Closure):
                     out = env[base]
                     for a in rest.split('.'):
                         out = ('sel', out, a)
@@ -885,19 +403,19 @@ class SymExec:
         if k == 'call':
             fn = t[1]
             args = [(kw, self.subst(a, env, node, depth)) for kw, a in t[2]]
-            if fn[0] == 'name' and isinstance(env.get(fn[1]), _SymClosure):
+            if fn[0] == 'name' and isinstance(env.get(fn[1]), _Closure):
                 return self.inline(env[fn[1]], args, env, node, depth)
             fn2 = self.subst(fn, env, node, depth)   # a local alias of a helper (`f = self._helper`) resolves to the helper
             if fn2[0] == 'name' and self.resolver is not None and (fn2 != fn or fn[1].split('.')[0] not in env):
                 r = self.resolver(fn2[1])
                 if r is not None and depth < self.max_depth:
-                    return self.inline(_SymClosure(r[0], skip=r[1], own_scope=True), args, env, node, depth)
+                    return self.inline(_Closure(r[0], skip=r[1], own_scope=True), args, env, node, depth)
             return ('call', fn2, args, None)
         if k in ('int', 'float', 'bool', 'str'):
             return t
         return tuple(self.subst(x, env, node, depth) if isinstance(x, (tuple, list)) else x for x in t)
 
-    def inline(self, clo: '_SymClosure', args: List[Tuple[Optional[str], tuple]], env: Dict[str, Any], node: ast.AST, depth: int) -> tuple:
+    def inline(self, clo: '_Closure', args: List[Tuple[Optional[str], tuple]], env: Dict[str, Any], node: ast.AST, depth: int) -> tuple:
         if depth >= self.max_depth:
             self.fail(node, f'helper calls nested deeper than {self.max_depth}')
         fn = clo.fn
@@ -925,7 +443,7 @@ class SymExec:
         # Python closures see the *current* bindings of the enclosing function; functions defined elsewhere only their own parameters
         inner_env = {} if clo.own_scope else dict(env)
         inner_env.update(bound)
-        start = SymPath()
+        start = TermPath()
         start.env = inner_env
         paths = self.block(fn.body, [start], depth + 1)
         out: Optional[tuple] = None
@@ -944,18 +462,18 @@ class SymExec:
         return out
 
     # ---- statements -------------------------------------------------------------------
-    def run(self, fn: pf.FuncDef, env: Dict[str, Any]) -> List[SymPath]:
-        start = SymPath()
+    def run(self, fn: pf.FuncDef, env: Dict[str, Any]) -> List[TermPath]:
+        start = TermPath()
         start.env = dict(env)
         body = [s for s in fn.body if not (isinstance(s, ast.Expr) and isinstance(s.value, ast.Constant))]
         return self.block(body, [start], 0)
 
-    def block(self, stmts: List[ast.stmt], live: List[SymPath], depth: int) -> List[SymPath]:
-        done: List[SymPath] = []
+    def block(self, stmts: List[ast.stmt], live: List[TermPath], depth: int) -> List[TermPath]:
+        done: List[TermPath] = []
         for st in stmts:
             if not live:
                 break
-            nxt: List[SymPath] = []
+            nxt: List[TermPath] = []
             for p in live:
                 for q in self.stmt(st, p, depth):
                     (nxt if q.end[0] == 'fall' else done).append(q)
@@ -964,10 +482,10 @@ class SymExec:
                 self.fail(st, 'too many paths')
         return done + live
 
-    def stmt(self, st: ast.stmt, p: SymPath, depth: int) -> List[SymPath]:
+    def stmt(self, st: ast.stmt, p: TermPath, depth: int) -> List[TermPath]:
         env = p.env
         if isinstance(st, ast.FunctionDef):
-            env[st.name] = _SymClosure(st)
+            env[st.name] = _Closure(st)
             return [p]
         if isinstance(st, (ast.Pass, ast.Import, ast.ImportFrom)):
             return [p]
@@ -1009,7 +527,7 @@ class SymExec:
             return [p]
         if isinstance(st, ast.If):
             c = self.tree(st.test, env, depth)
-            out: List[SymPath] = []
+            out: List[TermPath] = []
             for pol, body in ((True, st.body), (False, st.orelse)):
                 q = p.clone()
                 q.conds.append((c, pol, st.lineno))
@@ -1028,7 +546,7 @@ class SymExec:
             self.fail(st, f'assignment target `{pf.nsrc(tg)[:40]}`')
 
 
-class _SymClosure:
+class _Closure:
     def __init__(self, fn: ast.FunctionDef, skip: int = 0, own_scope: bool = False):
         self.fn, self.skip, self.own_scope = fn, skip, own_scope
 
@@ -1200,3 +718,720 @@ class SignDomain:
             if stt is not None:
                 facts[repr(stt[0])] = stt[1]
         return facts
+
+
+# --------------------------------------------------------------------------------------
+# bit-field domain: integers as vectors of constant / symbolic bits, arithmetic terms in normal form
+# --------------------------------------------------------------------------------------
+#
+# BV     an integer in two's complement with infinitely many bits: explicit low bits + a `fill` bit repeated above them.  A bit is
+#        0, 1 or a literal ('s', source, index, negated) - bit `index` of the quantity `source` (a named field of the word, or an
+#        uninterpreted term).  Every operation is exact or raises Unrepresentable (never approximates), so equality of two BVs is
+#        equality of the integers for EVERY value of the symbolic bits.
+# Poly   arithmetic over symbols / uninterpreted applications / floor-divisions in polynomial normal form; two formulas are the same
+#        function iff their normal forms coincide (sound, not complete).
+# A comparison that the constant bits and the interval of the symbolic ones do not decide raises Undecided(literal): the caller splits
+# the case on that one bit (finitely many splits), it never guesses.
+
+
+class Unrepresentable(AnalysisError):
+    """The operation leaves the domain (e.g. a carry that depends on two different symbols)."""
+
+
+class Undecided(Exception):
+    def __init__(self, lit: Optional[tuple], what: str):
+        super().__init__(what)
+        self.lit, self.what = lit, what
+
+
+class PathRaises(Exception):
+    """The modelled expression raises on this path."""
+
+
+def _lit(src: Any, idx: Any, neg: bool = False) -> tuple:
+    return ('s', src, idx, neg)
+
+
+def _bnot(a: Any) -> Any:
+    if a in (0, 1):
+        return 1 - a
+    return ('s', a[1], a[2], not a[3])
+
+
+def _band(a: Any, b: Any) -> Any:
+    if a == 0 or b == 0:
+        return 0
+    if a == 1:
+        return b
+    if b == 1:
+        return a
+    if a == b:
+        return a
+    if a == _bnot(b):
+        return 0
+    raise Unrepresentable(f'conjunction of two different symbolic bits {a[1:3]} & {b[1:3]}')
+
+
+def _bor(a: Any, b: Any) -> Any:
+    return _bnot(_band(_bnot(a), _bnot(b)))
+
+
+def _bxor(a: Any, b: Any) -> Any:
+    if a == 0:
+        return b
+    if b == 0:
+        return a
+    if a == 1:
+        return _bnot(b)
+    if b == 1:
+        return _bnot(a)
+    if a == b:
+        return 0
+    if a == _bnot(b):
+        return 1
+    raise Unrepresentable(f'exclusive-or of two different symbolic bits {a[1:3]} ^ {b[1:3]}')
+
+
+def _bmaj(a: Any, b: Any, c: Any) -> Any:
+    return _bor(_bor(_band(a, b), _band(a, c)), _band(b, c))
+
+
+class BV:
+    __slots__ = ('bits', 'fill')
+
+    def __init__(self, bits: Tuple[Any, ...], fill: Any = 0):
+        bits = list(bits)
+        while bits and bits[-1] == fill:
+            bits.pop()
+        self.bits: Tuple[Any, ...] = tuple(bits)
+        self.fill = fill
+
+    @staticmethod
+    def const(n: int) -> 'BV':
+        fill = 1 if n < 0 else 0
+        bits = []
+        m = n
+        for _ in range(max(n.bit_length(), 1) + 1):
+            bits.append(m & 1)
+            m >>= 1
+        return BV(tuple(bits), fill)
+
+    @staticmethod
+    def sym(src: Any, width: int, assume: Optional[Dict[tuple, int]] = None, lo: int = 0) -> 'BV':
+        """bits lo..lo+width-1 of the non-negative quantity `src`"""
+        assume = assume or {}
+        return BV(tuple(assume.get((src, i), _lit(src, i)) for i in range(lo, lo + width)), 0)
+
+    def key(self) -> tuple:
+        return ('bv', self.bits, self.fill)
+
+    def bit(self, i: int) -> Any:
+        return self.bits[i] if i < len(self.bits) else self.fill
+
+    def value(self) -> Optional[int]:
+        if self.fill not in (0, 1) or any(b not in (0, 1) for b in self.bits):
+            return None
+        v = sum(b << i for i, b in enumerate(self.bits))
+        return v - (1 << len(self.bits)) if self.fill == 1 else v
+
+    def interval(self) -> Tuple[Optional[int], Optional[int]]:
+        if self.fill not in (0, 1):
+            return (None, None)
+        lo = sum(1 << i for i, b in enumerate(self.bits) if b == 1)
+        hi = lo + sum(1 << i for i, b in enumerate(self.bits) if b not in (0, 1))
+        if self.fill == 1:
+            off = 1 << len(self.bits)
+            return (lo - off, hi - off)
+        return (lo, hi)
+
+    def top_symbol(self) -> Optional[tuple]:
+        if self.fill not in (0, 1):
+            return self.fill
+        for b in reversed(self.bits):
+            if b not in (0, 1):
+                return b
+        return None
+
+    def symbols(self) -> List[tuple]:
+        return [b for b in self.bits + (self.fill,) if b not in (0, 1)]
+
+    def substitute(self, assign: Callable[[Any, Any], int]) -> int:
+        """concrete value under an assignment of the symbolic bits (witness printing only)"""
+        def v(b):
+            if b in (0, 1):
+                return b
+            x = assign(b[1], b[2])
+            return (1 - x) if b[3] else x
+        bits = [v(b) for b in self.bits]
+        f = v(self.fill)
+        val = sum(b << i for i, b in enumerate(bits))
+        return val - (1 << len(bits)) if f == 1 else val
+
+    # ---- operations -------------------------------------------------------------
+    def _zip(self, o: 'BV') -> int:
+        return max(len(self.bits), len(o.bits))
+
+    def band(self, o: 'BV') -> 'BV':
+        n = self._zip(o)
+        return BV(tuple(_band(self.bit(i), o.bit(i)) for i in range(n)), _band(self.fill, o.fill))
+
+    def bor(self, o: 'BV') -> 'BV':
+        n = self._zip(o)
+        return BV(tuple(_bor(self.bit(i), o.bit(i)) for i in range(n)), _bor(self.fill, o.fill))
+
+    def bxor(self, o: 'BV') -> 'BV':
+        n = self._zip(o)
+        return BV(tuple(_bxor(self.bit(i), o.bit(i)) for i in range(n)), _bxor(self.fill, o.fill))
+
+    def inv(self) -> 'BV':
+        return BV(tuple(_bnot(b) for b in self.bits), _bnot(self.fill))
+
+    def shl(self, n: int) -> 'BV':
+        return BV((0,) * n + self.bits, self.fill)
+
+    def shr(self, n: int) -> 'BV':
+        """arithmetic shift (Python >>, Scala >> on the sign-extended view)"""
+        return BV(self.bits[n:], self.fill)
+
+    def add(self, o: 'BV') -> 'BV':
+        n = self._zip(o) + 1
+        out = []
+        c: Any = 0
+        for i in range(n):
+            a, b = self.bit(i), o.bit(i)
+            out.append(_bxor(_bxor(a, b), c))
+            c = _bmaj(a, b, c)
+        # the infinite tail: both operands are constant-per-position (their fills) from here on
+        fa, fb = self.fill, o.fill
+        for _ in range(3):
+            s = _bxor(_bxor(fa, fb), c)
+            c2 = _bmaj(fa, fb, c)
+            if c2 == c:
+                return BV(tuple(out), s)
+            out.append(s)
+            c = c2
+        raise Unrepresentable('carry into the sign extension does not stabilise')
+
+    def neg(self) -> 'BV':
+        return self.inv().add(BV.const(1))
+
+    def sub(self, o: 'BV') -> 'BV':
+        return self.add(o.neg())
+
+    def wrap(self, width: int = 32) -> 'BV':
+        """the value as a `width`-bit two's complement integer (JVM Int): low bits kept, sign-extended from bit width-1"""
+        low = tuple(self.bit(i) for i in range(width))
+        return BV(low, low[width - 1])
+
+    def lshr(self, n: int, width: int = 32) -> 'BV':
+        """JVM >>> on a `width`-bit integer"""
+        low = tuple(self.bit(i) for i in range(width))
+        return BV(low[n:], 0)
+
+
+def show_bv(b: BV) -> str:
+    """compact rendering: runs of bits of one source as src[hi..lo], constants as 0/1, most significant first"""
+    parts: List[str] = []
+    bits = list(b.bits)
+    i = len(bits) - 1
+    while i >= 0:
+        x = bits[i]
+        if x in (0, 1):
+            j = i
+            while j >= 0 and bits[j] in (0, 1):
+                j -= 1
+            parts.append(''.join(str(bits[k]) for k in range(i, j, -1)))
+            i = j
+        else:
+            j = i
+            while j - 1 >= 0 and bits[j - 1] not in (0, 1) and bits[j - 1][1] == x[1] and bits[j - 1][3] == x[3] and isinstance(x[2], int) and bits[j - 1][2] == bits[j][2] - 1:
+                j -= 1
+            nm = _show_src(x[1])
+            parts.append(('~' if x[3] else '') + (f'{nm}[{x[2]}..{bits[j][2]}]' if j != i else f'{nm}[{x[2]}]'))
+            i = j - 1
+    f = b.fill
+    ftxt = '' if f == 0 else ('…1' if f == 1 else f'…{_show_src(f[1])}[{f[2]}]')
+    return (ftxt + ':' if ftxt else '') + (':'.join(parts) if parts else '0')
+
+
+def _show_src(src: Any) -> str:
+    if isinstance(src, str):
+        return src
+    if isinstance(src, tuple) and src and src[0] == 'app':
+        return f'{src[1]}(' + ', '.join(_show_key(a) for a in src[2]) + ')'
+    if isinstance(src, tuple) and src and src[0] == 'poly':
+        return '(' + show_poly_key(src) + ')'
+    return str(src)
+
+
+def _show_key(k: Any) -> str:
+    if isinstance(k, tuple) and k and k[0] == 'bv':
+        return show_bv(BV(k[1], k[2]))
+    if isinstance(k, tuple) and k and k[0] == 'poly':
+        return show_poly_key(k)
+    return str(k)
+
+
+# ---- polynomial normal form --------------------------------------------------------------
+
+
+class Poly:
+    """sum of integer-coefficient monomials over atoms; atoms are hashable keys: ('sym', name) | ('app', f, argkeys) | ('fdiv', pkey, qkey) | ('bvatom', bvkey)"""
+    __slots__ = ('terms',)
+
+    def __init__(self, terms: Optional[Dict[tuple, int]] = None):
+        self.terms: Dict[tuple, int] = {m: c for m, c in (terms or {}).items() if c != 0}
+
+    @staticmethod
+    def const(n: int) -> 'Poly':
+        return Poly({(): n})
+
+    @staticmethod
+    def atom(a: Any) -> 'Poly':
+        return Poly({((a, 1),): 1})
+
+    def key(self) -> tuple:
+        return ('poly', tuple(sorted(self.terms.items(), key=repr)))
+
+    def as_const(self) -> Optional[int]:
+        if not self.terms:
+            return 0
+        if set(self.terms) == {()}:
+            return self.terms[()]
+        return None
+
+    def single_atom(self) -> Optional[Any]:
+        if len(self.terms) == 1:
+            (m, c), = self.terms.items()
+            if c == 1 and len(m) == 1 and m[0][1] == 1:
+                return m[0][0]
+        return None
+
+    def __add__(self, o: 'Poly') -> 'Poly':
+        t = dict(self.terms)
+        for m, c in o.terms.items():
+            t[m] = t.get(m, 0) + c
+        return Poly(t)
+
+    def __neg__(self) -> 'Poly':
+        return Poly({m: -c for m, c in self.terms.items()})
+
+    def __sub__(self, o: 'Poly') -> 'Poly':
+        return self + (-o)
+
+    def __mul__(self, o: 'Poly') -> 'Poly':
+        t: Dict[tuple, int] = {}
+        for m1, c1 in self.terms.items():
+            for m2, c2 in o.terms.items():
+                d: Dict[Any, int] = {}
+                for a, p in m1 + m2:
+                    d[a] = d.get(a, 0) + p
+                m = tuple(sorted(d.items(), key=repr))
+                t[m] = t.get(m, 0) + c1 * c2
+        return Poly(t)
+
+
+def show_poly_key(k: tuple) -> str:
+    out = []
+    for m, c in k[1]:
+        f = '*'.join((_show_src(a[1]) if a[0] == 'sym' else (_show_src(a) if a[0] == 'app' else ('(' + show_poly_key(a[1]) + ' // ' + show_poly_key(a[2]) + ')' if a[0] == 'fdiv' else _show_key(a[1]))))
+                     + (f'^{p}' if p != 1 else '') for a, p in m)
+        out.append((f'{c}*' if (c != 1 and f) else (str(c) if not f else '')) + f)
+    return ' + '.join(out) if out else '0'
+
+
+# ---- abstract evaluation of IR terms -----------------------------------------------------------
+
+
+class CallValue:
+    def __init__(self, alleles: Any, phased: Any):
+        self.alleles, self.phased = alleles, phased
+
+
+class TermEval:
+    """Abstract value of an IR term (Python or Scala subset) over BV / Poly / bool / list.
+    env:        name -> value (int, bool, BV, Poly, list)
+    funcs:      name -> (parameter names, IR body) - helper definitions evaluated in place (e.g. the Scala accessors)
+    uninterp:   name -> (symbol, result width in bits) - calls treated as applications of an uninterpreted function symbol
+    tables:     name -> (symbol, width) - `name[i]` treated likewise
+    nonneg:     keys of Polys known to be >= 0 (facts such as A0 <= A1, stored as key(A1 - A0))
+    assume:     (source, index) -> 0/1, the case splits made so far
+    opaque_width: assumed width of an arithmetic term when it is used as a bit pattern (non-negative, below 2^opaque_width)"""
+
+    def __init__(self, lang: str, env: Dict[str, Any], funcs: Optional[Dict[str, Tuple[List[str], tuple]]] = None, uninterp: Optional[Dict[str, Tuple[str, int]]] = None,
+                 tables: Optional[Dict[str, Tuple[str, int]]] = None, nonneg: Optional[set] = None, assume: Optional[Dict[tuple, int]] = None, opaque_width: int = 29,
+                 ctor: Tuple[str, ...] = ()):
+        self.lang, self.env = lang, env
+        self.funcs, self.uninterp, self.tables = funcs or {}, uninterp or {}, tables or {}
+        self.nonneg = nonneg or set()
+        self.assume = assume or {}
+        self.opaque_width = opaque_width
+        self.ctor = ctor
+        self.hooks: Dict[str, Callable[[List[Any]], Any]] = {}   # name -> function of the evaluated arguments (rule-provided models of extracted tables)
+        self.depth = 0
+
+    # ---- coercions ----------------------------------------------------------------
+    def to_bv(self, v: Any, what: str = '') -> BV:
+        if isinstance(v, BV):
+            return v
+        if isinstance(v, bool):
+            return BV.const(int(v))
+        if isinstance(v, int):
+            return BV.const(v)
+        if isinstance(v, Poly):
+            c = v.as_const()
+            if c is not None:
+                return BV.const(c)
+            a = v.single_atom()
+            if a is not None and a[0] == 'bvatom':
+                return BV(a[1][1], a[1][2])
+            if a is not None and a[0] == 'app':
+                width = next((w for s_, w in list(self.uninterp.values()) + list(self.tables.values()) if s_ == a[1]), self.opaque_width)
+                return BV.sym(a, width, self.assume)
+            src = a if (a is not None and a[0] == 'sym') else v.key()
+            return BV.sym(src if not (isinstance(src, tuple) and src[0] == 'sym') else src[1], self.opaque_width, self.assume)
+        raise AnalysisError(f'term domain: {type(v).__name__} used as a bit pattern {what}')
+
+    def to_poly(self, v: Any) -> Poly:
+        if isinstance(v, Poly):
+            return v
+        if isinstance(v, bool):
+            return Poly.const(int(v))
+        if isinstance(v, int):
+            return Poly.const(v)
+        if isinstance(v, BV):
+            c = v.value()
+            if c is not None:
+                return Poly.const(c)
+            # a whole symbol (all bits of one non-negative source, in order) is that symbol again
+            if v.fill == 0 and v.bits and all(b not in (0, 1) and not b[3] and b[1] == v.bits[0][1] and b[2] == i for i, b in enumerate(v.bits)) and len(v.bits) == self.opaque_width \
+                    and isinstance(v.bits[0][1], str):
+                return Poly.atom(('sym', v.bits[0][1]))
+            return Poly.atom(('bvatom', v.key()))
+        raise AnalysisError(f'term domain: {type(v).__name__} used as a number')
+
+    def key(self, v: Any) -> Any:
+        if isinstance(v, (BV, Poly)):
+            c = v.value() if isinstance(v, BV) else v.as_const()
+            if c is not None:
+                return ('int', c)
+            if isinstance(v, Poly):
+                return self.to_bv(v).key() if v.single_atom() is not None else v.key()
+            return v.key()
+        if isinstance(v, bool):
+            return ('bool', v)
+        if isinstance(v, int):
+            return ('int', v)
+        if isinstance(v, list):
+            return ('list', tuple(self.key(x) for x in v))
+        if isinstance(v, CallValue):
+            return ('Call', self.key(v.alleles), self.key(v.phased))
+        if v is None:
+            return ('none',)
+        raise AnalysisError(f'term domain: no canonical form for {type(v).__name__}')
+
+    def show(self, v: Any) -> str:
+        if isinstance(v, BV):
+            c = v.value()
+            return str(c) if c is not None else show_bv(v)
+        if isinstance(v, Poly):
+            c = v.as_const()
+            return str(c) if c is not None else show_poly_key(v.key())
+        if isinstance(v, list):
+            return '[' + ', '.join(self.show(x) for x in v) + ']'
+        if isinstance(v, CallValue):
+            return f'Call({self.show(v.alleles)}, phased={self.show(v.phased)})'
+        return str(v)
+
+    # ---- evaluation -------------------------------------------------------------------
+    def ev(self, t: tuple) -> Any:
+        k = t[0]
+        if k in ('int', 'bool'):
+            return t[1]
+        if k == 'float':
+            raise AnalysisError('term domain: floating-point constant')
+        if k == 'str':
+            return ('str', t[1])
+        if k == 'paren':
+            return self.ev(t[1])
+        if k == 'raise':
+            raise PathRaises(t[1] if len(t) > 1 else 'raise')
+        if k == 'name':
+            return self.name(t[1])
+        if k == 'sel':
+            if t[1][0] == 'name' and f'{t[1][1]}.{t[2]}' in self.env:
+                return self.env[f'{t[1][1]}.{t[2]}']
+            return self.attr(self.ev(t[1]), t[2])
+        if k == 'list':
+            return [self.ev(x) for x in t[1]]
+        if k == 'index':
+            if t[1][0] == 'name' and t[1][1] in self.tables and t[1][1] not in self.env:
+                return self.apply(self.tables[t[1][1]][0], [self.ev(t[2])])
+            base, i = self.ev(t[1]), self.ev(t[2])
+            if isinstance(base, list) and isinstance(i, int) and not isinstance(i, bool):
+                if not (-len(base) <= i < len(base)):
+                    raise PathRaises(f'IndexError: index {i} of a sequence of length {len(base)}')
+                return base[i]
+            raise AnalysisError(f'term domain: unsupported subscript `{show(t)[:60]}`')
+        if k == 'un':
+            v = self.ev(t[2])
+            if t[1] == '!':
+                if not isinstance(v, bool):
+                    v = self.truth(v, t[2])
+                return not v
+            if t[1] == '+':
+                return v
+            if isinstance(v, int) and not isinstance(v, bool):
+                return -v if t[1] == '-' else ~v
+            if t[1] == '-':
+                return -self.to_poly(v) if isinstance(v, Poly) else self.fit(self.to_bv(v).neg())
+            if t[1] == '~':
+                return self.fit(self.to_bv(v).inv())
+        if k == 'if':
+            try:
+                c = self.truth(self.ev(t[1]), t[1])
+            except Undecided:
+                # a condition that cannot be decided does not matter when both outcomes are the same term
+                try:
+                    a, b = self.ev(t[2]), self.ev(t[3])
+                except PathRaises:
+                    raise
+                if self.key(a) == self.key(b):
+                    return a
+                raise
+            return self.ev(t[2]) if c else self.ev(t[3])
+        if k == 'block':
+            saved = dict(self.env)
+            try:
+                res: Any = None
+                for st in t[1]:
+                    if st[0] == 'val':
+                        self.env[st[1]] = self.ev(from_scala(st[2]) if self.lang == 'scala' else st[2])
+                    elif st[0] == 'expr':
+                        res = self.ev(from_scala(st[1]) if self.lang == 'scala' else st[1])
+                    else:
+                        raise AnalysisError(f'term domain: unsupported statement {st[0]} in a block')
+                return res
+            finally:
+                self.env = saved
+        if k == 'bin':
+            op = t[1]
+            if op == '&&':
+                return self.truth(self.ev(t[2]), t[2]) and self.truth(self.ev(t[3]), t[3])
+            if op == '||':
+                return self.truth(self.ev(t[2]), t[2]) or self.truth(self.ev(t[3]), t[3])
+            return self.binop(op, self.ev(t[2]), self.ev(t[3]), t)
+        if k == 'call':
+            return self.call(t)
+        raise AnalysisError(f'term domain: unsupported node {k}')
+
+    def name(self, n: str) -> Any:
+        if n in self.env:
+            return self.env[n]
+        if n in ('True', 'true'):
+            return True
+        if n in ('False', 'false'):
+            return False
+        if n == 'None':
+            return None
+        if '.' in n:
+            base, attr = n.rsplit('.', 1)
+            if base in self.env:
+                return self.attr(self.env[base], attr)
+        raise AnalysisError(f'term domain: unbound name {n}')
+
+    def attr(self, v: Any, attr: str) -> Any:
+        if attr in ('toInt', 'toLong'):
+            if isinstance(v, bool):
+                return int(v)
+            return v
+        if attr == 'length' and isinstance(v, list):
+            return len(v)
+        raise AnalysisError(f'term domain: unsupported attribute .{attr}')
+
+    def truth(self, v: Any, t: tuple) -> bool:
+        if isinstance(v, bool):
+            return v
+        if isinstance(v, int):
+            return v != 0
+        if isinstance(v, list):
+            return bool(v)
+        if isinstance(v, BV):
+            c = v.value()
+            if c is not None:
+                return c != 0
+            if any(b == 1 for b in v.bits) or v.fill == 1:
+                return True
+            raise Undecided(v.top_symbol(), f'truth of `{show(t)[:60]}`')
+        raise AnalysisError(f'term domain: truth value of `{show(t)[:60]}`')
+
+    def fit(self, b: BV) -> Any:
+        """results of integer operators: unbounded in Python, 32-bit wrapped on the JVM"""
+        if self.lang == 'scala':
+            b = b.wrap(32)
+        c = b.value()
+        return c if c is not None else b
+
+    def apply(self, sym: str, args: List[Any]) -> Poly:
+        return Poly.atom(('app', sym, tuple(self.key(a) for a in args)))
+
+    def binop(self, op: str, a: Any, b: Any, t: tuple) -> Any:
+        conc = lambda x: isinstance(x, int) and not isinstance(x, bool)
+        if isinstance(a, bool) and isinstance(b, bool) and op in ('|', '&', '==', '!='):
+            return {'|': a or b, '&': a and b, '==': a == b, '!=': a != b}[op]
+        if isinstance(a, bool):
+            a = int(a)
+        if isinstance(b, bool):
+            b = int(b)
+        if conc(a) and conc(b):
+            try:
+                r = _binop(op, a, b, self.lang)
+            except Undefined as e:
+                raise PathRaises(str(e))
+            return r
+        if op in ('==', '!=', '<', '<=', '>', '>='):
+            return self.compare(op, a, b, t)
+        if op in ('<<', '>>', '>>>'):
+            s = b if conc(b) else (self.to_bv(b).value() if isinstance(b, BV) else None)
+            if s is None or s < 0 or s > 256:
+                raise AnalysisError(f'term domain: shift by a non-constant in `{show(t)[:60]}`')
+            x = self.to_bv(a)
+            if self.lang == 'scala':
+                s &= 31
+                x = x.wrap(32)
+            if op == '<<':
+                return self.fit(x.shl(s))
+            if op == '>>':
+                return self.fit(x.shr(s))
+            if self.lang != 'scala':
+                raise AnalysisError('term domain: >>> in Python')
+            return self.fit(x.lshr(s, 32))
+        if op in ('&', '|', '^'):
+            x, y = self.to_bv(a), self.to_bv(b)
+            return self.fit({'&': x.band, '|': x.bor, '^': x.bxor}[op](y))
+        def bitlike(x: Any) -> bool:
+            return isinstance(x, BV) or (isinstance(x, Poly) and x.single_atom() is not None and x.single_atom()[0] in ('sym', 'app'))
+        if op == '*':
+            for x, y in ((a, b), (b, a)):
+                if bitlike(x) and conc(y) and y > 0 and y & (y - 1) == 0:
+                    return self.fit(self.to_bv(x).shl(y.bit_length() - 1))
+        if op in ('+', '-'):
+            if (isinstance(a, BV) or isinstance(b, BV)) or (bitlike(a) and conc(b)) or (bitlike(b) and conc(a)):
+                try:
+                    x, y = self.to_bv(a), self.to_bv(b)
+                    return self.fit(x.add(y) if op == '+' else x.sub(y))
+                except Unrepresentable:
+                    pass  # carries depend on several symbols: keep the sum as an arithmetic term
+            pa, pb = self.to_poly(a), self.to_poly(b)
+            return pa + pb if op == '+' else pa - pb
+        if op == '*':
+            for x, y in ((a, b), (b, a)):
+                if isinstance(x, BV) and conc(y) and y > 0 and y & (y - 1) == 0:
+                    return self.fit(x.shl(y.bit_length() - 1))
+            return self.to_poly(a) * self.to_poly(b)
+        if op in ('//', '/'):
+            if op == '/' and self.lang == 'py':
+                raise AnalysisError('term domain: true division')
+            if isinstance(a, BV) and conc(b) and b > 0 and b & (b - 1) == 0 and a.fill == 0:
+                return self.fit(a.shr(b.bit_length() - 1))
+            pa, pb = self.to_poly(a), self.to_poly(b)
+            # JVM `/` truncates, Python `//` floors: the same on the non-negative operands in scope (allele indices)
+            return Poly.atom(('fdiv', pa.key(), pb.key()))
+        if op == '%':
+            if conc(b) and b > 0 and b & (b - 1) == 0 and self.lang == 'py':
+                return self.fit(self.to_bv(a).band(BV.const(b - 1)))
+        if op == '**' and conc(a) and conc(b):
+            return a ** b
+        raise AnalysisError(f'term domain: unsupported operator {op} in `{show(t)[:60]}`')
+
+    def compare(self, op: str, a: Any, b: Any, t: tuple) -> bool:
+        flip = {'<': '>', '>': '<', '<=': '>=', '>=': '<=', '==': '==', '!=': '!='}
+        if isinstance(b, BV) and not isinstance(a, BV):
+            a, b, op = b, a, flip[op]
+        if isinstance(a, BV) and (isinstance(b, int) or isinstance(b, BV)):
+            bb = self.to_bv(b)
+            cb = bb.value()
+            if op in ('==', '!='):
+                n = max(len(a.bits), len(bb.bits)) + 1
+                undecided = None
+                for i in range(n):
+                    x, y = a.bit(i), bb.bit(i)
+                    if x in (0, 1) and y in (0, 1):
+                        if x != y:
+                            return op == '!='
+                    elif x != y:
+                        undecided = x if x not in (0, 1) else y
+                if undecided is None:
+                    return op == '=='
+                raise Undecided(undecided, f'`{show(t)[:60]}`')
+            if cb is not None:
+                lo, hi = a.interval()
+                if lo is not None:
+                    if op == '<':
+                        res = True if hi < cb else (False if lo >= cb else None)
+                    elif op == '<=':
+                        res = True if hi <= cb else (False if lo > cb else None)
+                    elif op == '>':
+                        res = True if lo > cb else (False if hi <= cb else None)
+                    else:
+                        res = True if lo >= cb else (False if hi < cb else None)
+                    if res is not None:
+                        return res
+                raise Undecided(a.top_symbol(), f'`{show(t)[:60]}`')
+        pa, pb = self.to_poly(a), self.to_poly(b)
+        d = pa - pb
+        c = d.as_const()
+        if c is not None:
+            return {'==': c == 0, '!=': c != 0, '<': c < 0, '<=': c <= 0, '>': c > 0, '>=': c >= 0}[op]
+        if op in ('<=', '>') and (pb - pa).key() in self.nonneg:      # b - a >= 0
+            return op == '<='
+        if op in ('>=', '<') and d.key() in self.nonneg:               # a - b >= 0
+            return op == '>='
+        raise Undecided(None, f'`{show(t)[:60]}` (arithmetic comparison not implied by the known facts)')
+
+    def call(self, t: tuple) -> Any:
+        fn = t[1]
+        nm = fn[1] if fn[0] == 'name' else None
+        if nm is None:
+            raise AnalysisError(f'term domain: call of `{show(fn)[:40]}`')
+        if nm in self.ctor:
+            args = {i: self.ev(a) for i, (kw, a) in enumerate(t[2]) if kw is None}
+            kws = {kw: self.ev(a) for kw, a in t[2] if kw is not None}
+            alleles = args.get(0, kws.get('alleles'))
+            phased = args.get(1, kws.get('phased', False))
+            if not isinstance(alleles, list):
+                raise AnalysisError('term domain: Call(...) built from something that is not a list of alleles')
+            return CallValue(alleles, phased)
+        if nm in self.hooks:
+            return self.hooks[nm]([self.ev(a) for _, a in t[2]])
+        if nm in self.uninterp:
+            return self.apply(self.uninterp[nm][0], [self.ev(a) for _, a in t[2]])
+        if nm in self.funcs:
+            if self.depth > 12:
+                raise AnalysisError('term domain: helper calls nested too deep')
+            params, body = self.funcs[nm]
+            vals = [self.ev(a) for _, a in t[2]]
+            if len(vals) > len(params):
+                raise AnalysisError(f'term domain: too many arguments for {nm}')
+            saved = self.env
+            self.env = dict(saved)
+            self.env.update(dict(zip(params, vals)))
+            self.depth += 1
+            try:
+                return self.ev(body)
+            finally:
+                self.depth -= 1
+                self.env = saved
+        if nm in ('int', 'bool') and len(t[2]) == 1:
+            v = self.ev(t[2][0][1])
+            if isinstance(v, bool):
+                return int(v) if nm == 'int' else v
+            return v if nm == 'int' else self.truth(v, t)
+        if nm == 'len' and len(t[2]) == 1:
+            a = t[2][0][1]
+            if a[0] == 'name' and a[1] in self.tables and a[1] not in self.env:
+                return Poly.atom(('sym', f'len({a[1]})'))
+            v = self.ev(a)
+            if isinstance(v, list):
+                return len(v)
+        raise AnalysisError(f'term domain: call of `{nm}` is neither a known helper nor an uninterpreted symbol')
